@@ -8,6 +8,27 @@ CHECKS = {
  'C01': dict(level='exploration', engine='enum-vspec', technique='bounded-exhaustive enumeration of specification-valid setups x packet sequences (independent bit-level synthesiser), each decoded by the real library and by a specification-level reference decoder; differential oracle',
    text='Streams are written bit by bit from the specification by an independent synthesiser (never by the bundled encoder) over six enumerated suites: all 36 block-size pairs x all short/long mode sequences; all complete prefix codes <=5 entries in every order with sparse/ordered/single-entry variants x lookup types x dimensions x value formats, 32-bit-deep and 300/1000-entry books; floor 1 layouts x multipliers x X orders x Y vectors; floor 0 orders x bark maps x books; residue types 0/1/2 x begin/end cases x partition sizes x classifications x cascade masks x do-not-decode patterns; submaps, channel multiplexing, coupling lists, 64 modes, 255 channels. For each stream the per-packet sample count must be exact and every sample within a data-scaled single-precision budget of a double-precision reference decoder written from the specification text.',
    note='reference decoder pylib/vspec.py written from doc/*.tex (dB table parsed from the spec); IMDCT normalisation fixed from the de-facto definition; truncated packets, partition sizes that are not multiples of the book dimension and non-finite floor-0 curves are outside the judged alphabet (counted in evidence)', ref='C01'),
+ 'C02': dict(level='exploration', engine='enum-vspec', technique='bounded-exhaustive enumeration of header damage (all prefixes, all single-bit flips, all fields x boundary values, size extremes, header orders), of audio packets (ALL byte strings <=2(3) bytes on tiny setups, all truncations/bit flips of real packets) and of API call sequences <= depth 3(4), executed on the real decoder under ASan/UBSan-subset with watchdog, exit interposition and heap accounting',
+   text='Every byte prefix of each header, every single-bit flip of id and setup headers, every header field set to {0,1,max,max-1,mid,v+-1} (field list from the bit-level synthesiser), hand-written size-extreme codebooks (up to 2^24-1 entries, dim 0..65535, ordered/sparse/flat, budget edges), all headerin orders, ALL byte strings of length <=2 (3 thorough) as audio packets after 0/1/2 valid packets on four tiny setups, every truncation and bit flip of synthesised and real-encoder packets, granule/eos extremes, and all call sequences <= depth 3 (4) over a 27-call alphabet after 9 prefixes under an object-lifetime-only legality filter. Oracle: no sanitizer report, no signal, CPU watchdog (re-checked at 10x), exit() interposed, documented return codes, 1 GiB heap ceiling and heap plateau, clear functions still work; the lattice search is additionally checked against an integer reference for all (dim, entries) pairs in the parser budget.',
+   note='UBSan subset bounds/null/integer-divide-by-zero; stack verdicts from the uninstrumented build with the default 8 MiB stack; leaks are left to C13', ref='C02'),
+ 'C05': dict(level='exploration', engine='enum-vspec', technique='bounded-exhaustive enumeration of encoder configurations x signals; every emitted header/packet walked by a strict specification-level parser and by the real decoder; differential on fields, window flags and bit consumption',
+   text='Every (rate band, channels, quality step | managed triple, ctl setting) x signal (silence, noise, impulses, over-range; thorough adds sine, DC, denormals, mix and all templates) is encoded by the real encoder; the three headers must pass the strict parser written from the specification and vorbis_synthesis_headerin, with id fields equal to vorbis_info; every audio packet is decoded symbol by symbol by the specification-level packet walker (all codewords valid) and by vorbis_synthesis; VBR: bits used lie in the last byte and equal the library\'s consumption; managed: never rejected, no end-of-packet unless a hard maximum is set; long-block window flags equal the neighbours\' block types.',
+   note='strict parser = pylib/vspec.py (independent of lib/); first/last packet flags without neighbour are not judged', ref='C05'),
+ 'C11': dict(level='fault_enumeration', engine='enum-damage', technique='exhaustive fault enumeration over packet histories (every packet index x drop/dup/replace/zero/inject/every truncation/every single-bit flip; every (history, restart) pair) on the real packet decoder, differential against the undisturbed decode',
+   text='For 10 streams (3 rate/block-size families x 2 granule styles, twins with identical setup, silent-packet and alternating-channel families) every packet index is dropped (with and without sequence gap), duplicated, replaced by every other packet, zeroed, preceded by an injected header, truncated at every length and flipped at every single bit; every (history length, restart point) pair is run, own and twin history; page-level damage through vorbisfile. From the second packet after the disturbance (first after a restart) per-packet output must be bit-identical to the clean decode, and everything before an accepted corrupted packet as well.',
+   note='two narrow exemptions, both about granule-position trimming in page-style streams and documented in evidence (end trim needs an in-sequence granule; start trim recomputed from the delivered history)', ref='C11'),
+ 'C12': dict(level='fault_enumeration', engine='seq-bfs', technique='deviation-bounded environment enumeration: every callback invocation index x fault kind x {one-shot, persisting} (pairs thorough) on the real vorbisfile under ASan, recovery judged against a never-faulted twin',
+   text='Each scenario (open; read-through; 5 seek kinds x targets; half-rate; streaming; lapped seeks) is run fault-free to number its callback invocations, then once per invocation index and fault kind (read 0+EIO, read 0, 1-byte read, seek -1, tell -1), one-shot and persisting; thorough adds all pairs of one-shot faults. Judged: no sanitizer report, no call that never returns, source closed only by ov_clear of a successful open, failed open leaves a zeroed handle; for faults after a successful open, once callbacks work again a seek to each of 8 targets and the read-through equal the same history without the fault.',
+   note='faults swallowed inside a successful open are logged, not judged (weakest consistent reading); return codes checked against the union of OV_* codes', ref='C12'),
+ 'C16': dict(level='exploration', engine='enum-model', technique='bounded-exhaustive enumeration of comment lists over a byte alphabet against a list reference model, through both header writers and the real header reader under ASan',
+   text='All lists of <=2 entries over all strings of length <=3 over {a,A,=,NUL,0xE9,i}, all 3-entry lists over strings <=2 and over the 4-symbol sub-alphabet <=3 (thorough: the full 3-entry space, 4 entries, longer strings), size extremes (5000 entries, 300000-byte entries, all 256 byte values), written through vorbis_analysis_headerout and vorbis_commentheader_out, read back with vorbis_synthesis_headerin: same count, lengths, bytes, order and vendor; every query tag x index against the model with ASCII-only folding, also under a Turkish LC_CTYPE.',
+   note='Turkish locale is a localedef-built stand-in when tr_TR is not installed', ref='C16'),
+ 'C17': dict(level='exploration', engine='enum-model', technique='bounded-exhaustive enumeration exhaustive in the value dimension: all 2^32 float bit patterns (thorough; boundary strata + dense bands quick) x 8 formats through the real packing loops via ov_read_filter, plus twin-handle read-through for all buffer lengths',
+   text='Twin handles over 1/2/3/6/255-channel, chained and loud streams: for all 8 (word, signed, endian) formats and every buffer length 0..2 frames+1, 4096, 65536 the bytes of ov_read equal round/clip/offset/interleave of ov_read_float at the same position, whole frames only, position advance, canaries untouched, too-small buffers and word<=0 refused. Value-exhaustive: the filter callback feeds every float bit pattern (thorough: all 2^32 x 8 formats; quick: 1.08M boundary values x 8 formats and two dense bands of 503M values) through the real packing code.',
+   note='either tie rule accepted; NaN excluded; little-endian host', ref='C17'),
+ 'C19': dict(level='exploration', engine='seq-bfs', technique='bounded-exhaustive enumeration of (old position history) x (target) x (5 lapped variants + ov_crosslap pairs) on real handles, three replays per case (plain seek, lapped seek, lap source), plain and ASan builds',
+   text='For every old position class (fresh, after reads, mid-packet, last packet of a link, link end, EOF, decoder dumped) x boundary targets x {raw,pcm,pcm_page,time,time_page}_seek_lap and ov_crosslap over pairs of handles on single-link and chained files with differing channel counts and short-block sizes, with and without half-rate: the lapped call fails iff the plain one does (plus the two legitimate OV_EOF cases), lands on the same position, is bit-identical from half a short block on, and inside equals A*w^2+S*(1-w^2) against the lap source obtained from a third replay.',
+   note='two genuine defects are recorded as known findings (lap beyond the primed samples; second lapout on the same block); lap region not judged when the old position has no observable source', ref='C19'),
  'C07': dict(level='model_checking', engine='seq-bfs', technique='explicit-state BFS over real OggVorbis_File states (history replay + canonical state hash), every transition executed on the implementation',
    text='Every history over the seek/read alphabet is explored breadth-first to a fix-point of the canonical state hash on 5 zoo files (single link, flushed pages, 3-link chain, chain with one-page and zero-sample links, non-zero initial granule); in every state the read-through is compared bit-for-bit with the linear decode at ov_pcm_tell. Bounded by the alphabets and files, exhaustive within them.',
    note='libogg binary, gcc -O2 build of the current tree; state hash drops dead buffer regions and bitrate statistics (argued in DESIGN 2.6, spot-validated by bisimulation probes)', ref='C07 / C08'),
@@ -48,7 +69,9 @@ def main():
         'engines': [
             {'name': 'enum-vspec', 'path': 'pylib/vspec.py + pylib/vsynth.py + harness/c01_dec.c', 'serves_properties': ['C01', 'C05', 'C02'], 'kind_free_text': 'specification-level stream synthesiser, strict parser and reference decoder; enumerated streams executed on the real packet-level decoder'},
             {'name': 'enum-chainx', 'path': 'checks/c09.py + harness/chainx.c', 'serves_properties': ['C09', 'C10'], 'kind_free_text': 'bounded-exhaustive enumeration of chains / delivery schedules executed on the real vorbisfile, differential oracle'},
-            {'name': 'seq-bfs', 'path': 'pylib/seekgraph.py + harness/vfx.c', 'serves_properties': ['C07', 'C08', 'C20'], 'kind_free_text': 'explicit-state breadth-first search over the real OggVorbis_File; state = replayed history, identified by canonical hash'},
+            {'name': 'enum-damage', 'path': 'checks/c11.py + harness/c11_damage.c', 'serves_properties': ['C11'], 'kind_free_text': 'exhaustive packet-history fault enumeration on the real packet decoder'},
+            {'name': 'enum-model', 'path': 'checks/c16.py, checks/c17.py + harness/c16_comments.c, harness/c17_pcm.c', 'serves_properties': ['C16', 'C17'], 'kind_free_text': 'bounded-exhaustive input enumeration against a boring reference model'},
+            {'name': 'seq-bfs', 'path': 'pylib/seekgraph.py + harness/vfx.c', 'serves_properties': ['C07', 'C08', 'C12', 'C19', 'C20'], 'kind_free_text': 'explicit-state breadth-first search over the real OggVorbis_File; state = replayed history, identified by canonical hash'},
         ],
         'checks': checks,
         'notes': 'All checks rebuild the library from /repo (VERIF_REPO overrides) into /verif/build; fix: commits in /repo are listed in known_findings.json as fixed entries.',
